@@ -59,14 +59,8 @@ def case_strategy():
     return st.one_of(fs_case(), fs_case(), fs_case(), eof_case())
 
 
-_DIR = None
-
-
 def _path():
-    global _DIR
-    if _DIR is None:
-        _DIR = sim.fresh_dir("c09")
-    return _DIR / "f.bin"
+    return sim.proc_dir("c09") / "f.bin"
 
 
 def _check_one(vfs, path, data, prefix, chunk, kind, tweak, vs):
